@@ -380,11 +380,58 @@ fn sweep_edits(cyc: &Cycle, rec: &Recorder, two_edit_shortest: usize) -> Tally {
     let mut shortest: Vec<&str> = core.clone();
     shortest.sort_by_key(|s| s.len());
     let shortest: Vec<&str> = shortest.into_iter().take(two_edit_shortest).collect();
+    // numbers that are valid only modulo an integer width (k + 2^8, 2^16, 2^32, 2^64, 2^128) or with huge zero padding,
+    // spelled out in every numeric slot of every core sentence
+    let wrap = |s: &[u8]| -> Vec<Vec<u8>> {
+        let mut v = vec![];
+        let mut k = 0;
+        while k < s.len() {
+            if s[k].is_ascii_digit() {
+                let end = (k..s.len()).find(|&j| !s[j].is_ascii_digit()).unwrap_or(s.len());
+                if end - k <= 6 {
+                    let val: u128 = std::str::from_utf8(&s[k..end]).unwrap().parse().unwrap();
+                    for add in [1u128 << 8, 1 << 16, 1 << 31, 1 << 32, 1 << 63, 1 << 64, 1 << 65, 3 << 64, u128::MAX - 500] {
+                        for mul in [1u128, 2] {
+                            if let Some(x) = add.checked_mul(mul).and_then(|a| a.checked_add(val)) {
+                                let mut t = s[..k].to_vec();
+                                t.extend_from_slice(x.to_string().as_bytes());
+                                t.extend_from_slice(&s[end..]);
+                                v.push(t);
+                            }
+                        }
+                    }
+                    // 2^128 + value and 2^256-ish + value (decimal strings longer than any machine integer)
+                    for big in ["340282366920938463463374607431768211456", "115792089237316195423570985008687907853269984665640564039457584007913129639936"] {
+                        let sum = add_decimal(big, &val.to_string());
+                        let mut t = s[..k].to_vec();
+                        t.extend_from_slice(sum.as_bytes());
+                        t.extend_from_slice(&s[end..]);
+                        v.push(t);
+                    }
+                    for zeros in [1usize, 2, 19, 20, 40, 300] {
+                        let mut t = s[..k].to_vec();
+                        t.extend(std::iter::repeat(b'0').take(zeros));
+                        t.extend_from_slice(&s[k..]);
+                        v.push(t);
+                    }
+                }
+                k = end;
+            } else {
+                k += 1;
+            }
+        }
+        v
+    };
     let t = core
         .par_iter()
         .map(|s| {
             let mut tl = Tally::default();
             let e1 = one_edits(s.as_bytes());
+            for x in wrap(s.as_bytes()) {
+                for &m in &modes {
+                    check_string(cyc, &x, m, rec, "edits", &mut tl, false);
+                }
+            }
             for &m in &modes {
                 check_string(cyc, s.as_bytes(), m, rec, "edits", &mut tl, true);
             }
@@ -407,6 +454,25 @@ fn sweep_edits(cyc: &Cycle, rec: &Recorder, two_edit_shortest: usize) -> Tally {
     t
 }
 
+/// schoolbook addition of two decimal strings
+fn add_decimal(a: &str, b: &str) -> String {
+    let (a, b) = (a.as_bytes(), b.as_bytes());
+    let mut out = vec![];
+    let mut carry = 0u8;
+    for i in 0..a.len().max(b.len()) {
+        let x = if i < a.len() { a[a.len() - 1 - i] - b'0' } else { 0 };
+        let y = if i < b.len() { b[b.len() - 1 - i] - b'0' } else { 0 };
+        let s = x + y + carry;
+        out.push(b'0' + s % 10);
+        carry = s / 10;
+    }
+    if carry > 0 {
+        out.push(b'0' + carry);
+    }
+    out.reverse();
+    String::from_utf8(out).unwrap()
+}
+
 pub fn run(args: &Args) -> i32 {
     let rec = Recorder::new(args, "model_checking");
     let cyc = Cycle::build();
@@ -423,7 +489,7 @@ pub fn run(args: &Args) -> i32 {
     total = total.merge(sweep_edits(&cyc, &rec, if thorough { 10 } else { 4 }));
     // special values of the settings path
     let mut tl = Tally::default();
-    for s in ["", "localtime", ":", ":UTC0", " UTC0 ", "\tUTC0\n", "\u{b}UTC0", "UTC0\u{b}", "\u{c}UTC0\u{c}", "\rUTC0\r"] {
+    for s in ["", "localtime", ":", ":UTC0", " UTC0 ", "\tUTC0\n", "\u{b}UTC0", "UTC0\u{b}", "\u{c}UTC0\u{c}", "\rUTC0\r", "UTC0\u{a0}", "\u{85}UTC0", "UTC0\u{2003}", "\u{3000}EST5EDT,M3.2.0,M11.1.0\u{2028}", "UTC0\u{feff}", "\u{1680}UTC0", "UTC0\u{200b}"] {
         for &m in &modes {
             check_string(&cyc, s.as_bytes(), m, &rec, "special", &mut tl, false);
         }
